@@ -377,7 +377,8 @@ package tq
 // is sent; otherwise one POST to exactly the offered href, announcing and
 // accepting the LFS media type, with every header of the action applied.
 //@ func verifyUpload
-//@   props C18
+//@   props C18 C03
+//@   monitor verified[t] := result == nil
 //@   requires @inv c != nil && t != nil
 //@   at call http.NewRequest:1 assert action != nil && arg0__ == "POST" && arg1__ == action.Href
 //@   loop 2 iter has(req.Header, str_canon(key)) && req.Header[str_canon(key)][0] == value
@@ -404,3 +405,38 @@ package tq
 //@   requires @inv r != nil && r.MaxRetryDelay >= 0 && r.MaxRetryDelay <= 1000000
 //@   modifies fresh
 //@   at call (time.Time).Add:1 assert arg1__ >= 0 && arg1__ <= r.MaxRetryDelay * 1000000000
+
+// C03: the basic upload adapter.  What is sent is the file at the transfer's
+// own object path with the transfer's own size; the transfer only counts as
+// done after the server answered the PUT with a 2xx status and the verify
+// call-back, made for this very transfer, succeeded.
+//@ func (*basicUploadAdapter).DoTransfer
+//@   props C03
+//@   requires @inv a != nil && t != nil && a.apiClient != nil
+//@   at call tools.NewFileBodyWithCallback:1 assert fpath(arg0__) == t.Path && arg1__ == t.Size
+//@   at call (*tq.adapterBase).newHTTPRequest:1 assert arg1__ == "PUT" && arg2__ == rel
+//@   at call (*tq.basicUploadAdapter).makeRequest:1 assert arg1__ == t
+//@   at call tq.verifyUpload:1 assert arg2__ == t && res != nil && res.StatusCode <= 299 && res.StatusCode != 403
+//@   ensures result == nil ==> verified(t)
+//@ func (*basicUploadAdapter).makeRequest
+//@   assumed
+//@   props C03
+//@   modifies fresh
+//@   ensures result1 == nil ==> result0 != nil && result0.Body != nil && result0.Header != nil
+//@ func (*adapterBase).setContentTypeFor
+//@   assumed
+//@   props C03
+//@   modifies fresh
+//@ func github.com/git-lfs/git-lfs/v3/tools.NewFileBodyWithCallback
+//@   assumed
+//@   props C03
+//@   modifies fresh
+//@   ensures result != nil
+//@ func newStartCallbackReader
+//@   assumed
+//@   props C03
+//@   modifies fresh
+//@ func (*github.com/git-lfs/git-lfs/v3/tools.BodyWithCallback).ResetProgress
+//@   assumed
+//@   props C03
+//@   modifies fresh
